@@ -352,7 +352,9 @@ class Agg:
                 res = {"status": "fail", "kind": st.split(":")[0], "detail": "witness replay: %s" % st,
                        "classes": (res or {}).get("classes", f.get("classes", []))}
             res["mode"] = w["mode"]
-            if finding_matches(f, res):
+            # a witness borrowed from another property is judged by the symptom it shows in its own mode
+            fm = dict(f, symptom=w["symptom"], mode=w["mode"]) if "symptom" in w else f
+            if finding_matches(fm, res):
                 self.known_hits[f["id"]] = self.known_hits.get(f["id"], 0) + 1
                 self.print_known(f)
             else:
